@@ -36,6 +36,17 @@ __CPROVER_requires(__CPROVER_is_fresh(tensor, sizeof(*tensor))) \
 __CPROVER_assigns() \
 __CPROVER_ensures(__CPROVER_return_value == tensor->n)
 
+/* rank-2 tensor in the (rank 1, rank 2, rank 1) instantiation that solver/bundle.h uses: one opaque token per row.
+ * detail::copy on it is `tensor.tensor(idst) = tensor.tensor(isrc)` (assignment of tensor_map_t temporaries: C++ object
+ * semantics, not extracted); its ASSUMED contract is "row idst becomes row isrc, nothing else changes", with the asserted
+ * row range as the checked precondition -- i.e. rows behave like elements */
+struct nv_t2d { double* p; int64_t n; };
+static void nv_copy_rows(int64_t isrc, int64_t idst, struct nv_t2d* tensor)
+{
+  __CPROVER_assert(0 <= isrc && isrc < tensor->n && 0 <= idst && idst < tensor->n, "detail::copy (rank 2): source and destination rows inside [0, size<0>())");
+  tensor->p[idst] = tensor->p[isrc];
+}
+
 /* detail::copy(isrc, idst, tensor): the asserts the library compiles out are the precondition */
 #define NV_CONTRACT_detail_copy \
 __CPROVER_requires(__CPROVER_is_fresh(tensor, sizeof(*tensor)) && NV_T1D_OK(*tensor)) \
@@ -77,3 +88,41 @@ __CPROVER_loop_invariant(last == nv_kept) \
 __CPROVER_loop_invariant((0 <= nv_g && nv_g < size && nv_g >= curr) ==> NV_SAME(tensors->p[nv_g], nv_old_g)) \
 __CPROVER_loop_invariant((0 <= nv_g && nv_g < curr && !nv_flags[nv_g]) ==> (nv_kept_before_g < last && NV_SAME(tensors->p[nv_kept_before_g], nv_old_g))) \
 __CPROVER_decreases(size - curr)
+
+/* ---- the three-tensor instantiation remove_if(op, e, S, a): the SAME loops; every tensor receives the same copies.
+ * Precondition: all tensors have the same size<0>() (detail::size reads the first one only); true of the three call sites
+ * (slices [0, m_size) of buffers of equal capacity). */
+#ifdef NV_TRIPLE
+/* one target per tracked tensor NV_TRK in {tensors_0, tensors_1, tensors_2} (the other two are still written through the
+ * same checked copies, their contents are just not followed): three 10 s proofs instead of one 2 min proof */
+#undef NV_CONTRACT_detail_size
+#define NV_CONTRACT_detail_size \
+__CPROVER_requires(__CPROVER_is_fresh(tensor, sizeof(*tensor))) \
+__CPROVER_assigns() \
+__CPROVER_ensures(__CPROVER_return_value == tensor->n)
+#define NV_T2D_OK(t) ((t).n >= 0 && (t).n <= NV_MAXN && __CPROVER_is_fresh((t).p, ((t).n > 0 ? (t).n : 1) * sizeof(double)))
+#undef NV_CONTRACT_remove_if
+#define NV_CONTRACT_remove_if \
+__CPROVER_requires(__CPROVER_is_fresh(tensors_0, sizeof(*tensors_0)) && NV_T1D_OK(*tensors_0) && nv_n == tensors_0->n) \
+__CPROVER_requires(__CPROVER_is_fresh(tensors_1, sizeof(*tensors_1)) && NV_T2D_OK(*tensors_1) && nv_n == tensors_1->n) \
+__CPROVER_requires(__CPROVER_is_fresh(tensors_2, sizeof(*tensors_2)) && NV_T1D_OK(*tensors_2) && nv_n == tensors_2->n) \
+__CPROVER_requires(__CPROVER_is_fresh(nv_flags, (nv_n > 0 ? nv_n : 1) * sizeof(_Bool))) \
+__CPROVER_requires(nv_next == 0 && nv_kept == 0 && nv_kept_before_g == 0) \
+__CPROVER_requires((0 <= nv_g && nv_g < nv_n) ==> NV_SAME(nv_old_g, NV_TRK->p[nv_g])) \
+__CPROVER_assigns(NV_GHOSTS, __CPROVER_object_whole(tensors_0->p), __CPROVER_object_whole(tensors_1->p), __CPROVER_object_whole(tensors_2->p)) \
+__CPROVER_ensures(nv_next == nv_n) \
+__CPROVER_ensures(__CPROVER_return_value == nv_kept) \
+__CPROVER_ensures(0 <= __CPROVER_return_value && __CPROVER_return_value <= nv_n) \
+__CPROVER_ensures((0 <= nv_g && nv_g < nv_n && !nv_flags[nv_g]) ==> \
+                  (nv_kept_before_g < __CPROVER_return_value && NV_SAME(NV_TRK->p[nv_kept_before_g], nv_old_g)))
+
+#undef NV_LOOP_remove_if_2
+#define NV_LOOP_remove_if_2 \
+__CPROVER_assigns(curr, last, NV_GHOSTS, __CPROVER_object_whole(tensors_0->p), __CPROVER_object_whole(tensors_1->p), __CPROVER_object_whole(tensors_2->p)) \
+__CPROVER_loop_invariant(size == nv_n && 0 <= last && last <= curr && curr <= size && NV_RI_COMMON(size)) \
+__CPROVER_loop_invariant(nv_next == curr || (curr < size && nv_next == curr + 1 && nv_flags[curr])) \
+__CPROVER_loop_invariant(last == nv_kept) \
+__CPROVER_loop_invariant((0 <= nv_g && nv_g < size && nv_g >= curr) ==> NV_SAME(NV_TRK->p[nv_g], nv_old_g)) \
+__CPROVER_loop_invariant((0 <= nv_g && nv_g < curr && !nv_flags[nv_g]) ==> (nv_kept_before_g < last && NV_SAME(NV_TRK->p[nv_kept_before_g], nv_old_g))) \
+__CPROVER_decreases(size - curr)
+#endif
